@@ -297,20 +297,20 @@ static void check_shared(const std::string& h, Rng& rng) {
         g_pos = a.first; g_n = a.second; g_pos2 = b.first; g_n2 = b.second;
         TV t(sh.data() + a.first, a.second), tx(sh.data() + b.first, b.second);
         SV s(sh.data() + a.first, a.second), sx(sh.data() + b.first, b.second);
-        chk("shared storage: operator==(view,view)", [&] { return t == tx; }, [&] { return s == sx; });
-        chk("shared storage: operator!=(view,view)", [&] { return t != tx; }, [&] { return s != sx; });
-        chk("shared storage: operator<(view,view)", [&] { return t < tx; }, [&] { return s < sx; });
-        chk("shared storage: operator<=(view,view)", [&] { return t <= tx; }, [&] { return s <= sx; });
-        chk("shared storage: operator>(view,view)", [&] { return t > tx; }, [&] { return s > sx; });
-        chk("shared storage: operator>=(view,view)", [&] { return t >= tx; }, [&] { return s >= sx; });
-        chk("shared storage: compare(view)", [&] { return sign(t.compare(tx)); }, [&] { return sign(s.compare(sx)); });
-        chk("shared storage: starts_with(view)", [&] { return t.starts_with(tx); }, [&] { return s.starts_with(sx); });
-        chk("shared storage: ends_with(view)", [&] { return t.ends_with(tx); }, [&] { return s.ends_with(sx); });
-        chk("shared storage: find(view)", [&] { return t.find(tx); }, [&] { return s.find(sx); });
-        chk("shared storage: rfind(view)", [&] { return t.rfind(tx); }, [&] { return s.rfind(sx); });
-        chk("shared storage: find_first_of(view)", [&] { return t.find_first_of(tx); }, [&] { return s.find_first_of(sx); });
-        chk("shared storage: find_last_not_of(view)", [&] { return t.find_last_not_of(tx); }, [&] { return s.find_last_not_of(sx); });
-        if ((t == tx) && std::hash<TV>()(t) != std::hash<TV>()(tx)) report("shared storage: hash", "differs for equal views", "equal");
+        chk("shared-storage:operator==(view,view)", [&] { return t == tx; }, [&] { return s == sx; });
+        chk("shared-storage:operator!=(view,view)", [&] { return t != tx; }, [&] { return s != sx; });
+        chk("shared-storage:operator<(view,view)", [&] { return t < tx; }, [&] { return s < sx; });
+        chk("shared-storage:operator<=(view,view)", [&] { return t <= tx; }, [&] { return s <= sx; });
+        chk("shared-storage:operator>(view,view)", [&] { return t > tx; }, [&] { return s > sx; });
+        chk("shared-storage:operator>=(view,view)", [&] { return t >= tx; }, [&] { return s >= sx; });
+        chk("shared-storage:compare(view)", [&] { return sign(t.compare(tx)); }, [&] { return sign(s.compare(sx)); });
+        chk("shared-storage:starts_with(view)", [&] { return t.starts_with(tx); }, [&] { return s.starts_with(sx); });
+        chk("shared-storage:ends_with(view)", [&] { return t.ends_with(tx); }, [&] { return s.ends_with(sx); });
+        chk("shared-storage:find(view)", [&] { return t.find(tx); }, [&] { return s.find(sx); });
+        chk("shared-storage:rfind(view)", [&] { return t.rfind(tx); }, [&] { return s.rfind(sx); });
+        chk("shared-storage:find_first_of(view)", [&] { return t.find_first_of(tx); }, [&] { return s.find_first_of(sx); });
+        chk("shared-storage:find_last_not_of(view)", [&] { return t.find_last_not_of(tx); }, [&] { return s.find_last_not_of(sx); });
+        if ((t == tx) && std::hash<TV>()(t) != std::hash<TV>()(tx)) report("shared-storage:hash", "differs for equal views", "equal");
     }
     {   // NUL-terminated buffer: view of a prefix against the C string it starts
         std::string z = h.substr(0, h.find('\0'));
@@ -318,9 +318,9 @@ static void check_shared(const std::string& h, Rng& rng) {
         for (size_t n = 0; n <= z.size(); ++n) {
             g_pos = 0; g_n = n; g_needle = &z;
             TV t(zc, n); SV s(zc, n);
-            chk("shared storage: operator==(view,char*)", [&] { return t == zc; }, [&] { return s == zc; });
-            chk("shared storage: operator!=(char*,view)", [&] { return zc != t; }, [&] { return zc != s; });
-            chk("shared storage: compare(char*)", [&] { return sign(t.compare(zc)); }, [&] { return sign(s.compare(zc)); });
+            chk("shared-storage:operator==(view,char*)", [&] { return t == zc; }, [&] { return s == zc; });
+            chk("shared-storage:operator!=(char*,view)", [&] { return zc != t; }, [&] { return zc != s; });
+            chk("shared-storage:compare(char*)", [&] { return sign(t.compare(zc)); }, [&] { return sign(s.compare(zc)); });
         }
     }
     // derived from one view by the modifiers
@@ -328,11 +328,11 @@ static void check_shared(const std::string& h, Rng& rng) {
         g_pos = k; g_n = 0; g_needle = &none;
         TV t(sh.data(), h.size()), u = t; SV s(sh.data(), h.size()), v = s;
         u.remove_suffix(k); v.remove_suffix(k);
-        chk("shared storage: view == view.remove_suffix(k)", [&] { return t == u; }, [&] { return s == v; });
-        chk("shared storage: view.remove_suffix(k) == view", [&] { return u == t; }, [&] { return v == s; });
-        chk("shared storage: view == view.substr(0,k)", [&] { return t == t.substr(0, k); }, [&] { return s == s.substr(0, k); });
+        chk("shared-storage:view == view.remove_suffix(k)", [&] { return t == u; }, [&] { return s == v; });
+        chk("shared-storage:view.remove_suffix(k) == view", [&] { return u == t; }, [&] { return v == s; });
+        chk("shared-storage:view == view.substr(0,k)", [&] { return t == t.substr(0, k); }, [&] { return s == s.substr(0, k); });
         TV c = t; c.clear();
-        chk("shared storage: view == cleared copy", [&] { return t == c; }, [&] { return s == SV(); });
+        chk("shared-storage:view == cleared copy", [&] { return t == c; }, [&] { return s == SV(); });
     }
     verif::count("shared_storage_range_pairs", R.size() * R.size());
 }
@@ -348,31 +348,31 @@ static void check_null(const std::string& x, Rng& rng) {
     TV nulls[3] = { TV(), TV(static_cast<const char*>(nullptr), (size_t)0), TV(SV()) };
     SV s;
     for (TV& t : nulls) {
-        chk("null view: size", [&] { return t.size(); }, [&] { return s.size(); });
-        chk("null view: empty", [&] { return t.empty(); }, [&] { return s.empty(); });
-        chk("null view: to_string", [&] { return t.to_string(); }, [&] { return std::string(s); });
-        chk("null view: iteration", [&] { return std::string(t.begin(), t.end()); }, [&] { return std::string(s.begin(), s.end()); });
-        chk("null view: reverse iteration", [&] { return std::string(t.rbegin(), t.rend()); }, [&] { return std::string(s.rbegin(), s.rend()); });
-        chk("null view: operator==(view,view)", [&] { return t == tx; }, [&] { return s == sx; });
-        chk("null view: operator==(view,view) reversed", [&] { return tx == t; }, [&] { return sx == s; });
-        chk("null view: operator!=(view,view)", [&] { return t != tx; }, [&] { return s != sx; });
-        chk("null view: operator<(view,view)", [&] { return t < tx; }, [&] { return s < sx; });
-        chk("null view: operator<(view,view) reversed", [&] { return tx < t; }, [&] { return sx < s; });
-        chk("null view: operator==(view,string)", [&] { return t == x; }, [&] { return s == x; });
-        chk("null view: operator==(view,char*)", [&] { return t == xc; }, [&] { return s == xc; });
-        chk("null view: compare(view)", [&] { return sign(t.compare(tx)); }, [&] { return sign(s.compare(sx)); });
-        chk("null view: compare(view) reversed", [&] { return sign(tx.compare(t)); }, [&] { return sign(sx.compare(s)); });
-        chk("null view: starts_with(view)", [&] { return t.starts_with(tx); }, [&] { return s.starts_with(sx); });
-        chk("null view: ends_with(view)", [&] { return t.ends_with(tx); }, [&] { return s.ends_with(sx); });
-        chk("null view: starts_with(null view)", [&] { return tx.starts_with(t); }, [&] { return sx.starts_with(s); });
-        chk("null view: ends_with(null view)", [&] { return tx.ends_with(t); }, [&] { return sx.ends_with(s); });
+        chk("null-view:size", [&] { return t.size(); }, [&] { return s.size(); });
+        chk("null-view:empty", [&] { return t.empty(); }, [&] { return s.empty(); });
+        chk("null-view:to_string", [&] { return t.to_string(); }, [&] { return std::string(s); });
+        chk("null-view:iteration", [&] { return std::string(t.begin(), t.end()); }, [&] { return std::string(s.begin(), s.end()); });
+        chk("null-view:reverse iteration", [&] { return std::string(t.rbegin(), t.rend()); }, [&] { return std::string(s.rbegin(), s.rend()); });
+        chk("null-view:operator==(view,view)", [&] { return t == tx; }, [&] { return s == sx; });
+        chk("null-view:operator==(view,view) reversed", [&] { return tx == t; }, [&] { return sx == s; });
+        chk("null-view:operator!=(view,view)", [&] { return t != tx; }, [&] { return s != sx; });
+        chk("null-view:operator<(view,view)", [&] { return t < tx; }, [&] { return s < sx; });
+        chk("null-view:operator<(view,view) reversed", [&] { return tx < t; }, [&] { return sx < s; });
+        chk("null-view:operator==(view,string)", [&] { return t == x; }, [&] { return s == x; });
+        chk("null-view:operator==(view,char*)", [&] { return t == xc; }, [&] { return s == xc; });
+        chk("null-view:compare(view)", [&] { return sign(t.compare(tx)); }, [&] { return sign(s.compare(sx)); });
+        chk("null-view:compare(view) reversed", [&] { return sign(tx.compare(t)); }, [&] { return sign(sx.compare(s)); });
+        chk("null-view:starts_with(view)", [&] { return t.starts_with(tx); }, [&] { return s.starts_with(sx); });
+        chk("null-view:ends_with(view)", [&] { return t.ends_with(tx); }, [&] { return s.ends_with(sx); });
+        chk("null-view:starts_with(null view)", [&] { return tx.starts_with(t); }, [&] { return sx.starts_with(s); });
+        chk("null-view:ends_with(null view)", [&] { return tx.ends_with(t); }, [&] { return sx.ends_with(s); });
         for (size_t pos : { (size_t)0, (size_t)1, (size_t)2, x.size(), x.size() + 1, npos }) {
             g_pos = pos;
 #define NULLFAM(NAME)                                                                                   \
-            chk("null view: " #NAME "(view,pos)", [&] { return t.NAME(tx, pos); }, [&] { return s.NAME(sx, pos); });       \
-            chk("null view: " #NAME "(null view,pos)", [&] { return tx.NAME(t, pos); }, [&] { return sx.NAME(s, pos); });  \
-            chk("null view: " #NAME "(char*,pos)", [&] { return t.NAME(xc, pos); }, [&] { return s.NAME(xc, pos); });      \
-            chk("null view: " #NAME "(char,pos)", [&] { return t.NAME('a', pos); }, [&] { return s.NAME('a', pos); });
+            chk("null-view:" #NAME "(view,pos)", [&] { return t.NAME(tx, pos); }, [&] { return s.NAME(sx, pos); });       \
+            chk("null-view:" #NAME "(null view,pos)", [&] { return tx.NAME(t, pos); }, [&] { return sx.NAME(s, pos); });  \
+            chk("null-view:" #NAME "(char*,pos)", [&] { return t.NAME(xc, pos); }, [&] { return s.NAME(xc, pos); });      \
+            chk("null-view:" #NAME "(char,pos)", [&] { return t.NAME('a', pos); }, [&] { return s.NAME('a', pos); });
             NULLFAM(find)
             NULLFAM(rfind)
             NULLFAM(find_first_of)
@@ -380,18 +380,18 @@ static void check_null(const std::string& x, Rng& rng) {
             NULLFAM(find_first_not_of)
             NULLFAM(find_last_not_of)
 #undef NULLFAM
-            chk("null view: substr(pos)", [&] { return t.substr(pos).to_string(); }, [&] { return std::string(s.substr(pos)); });
-            chk("null view: compare(pos,n,view)", [&] { return sign(t.compare(pos, 1, tx)); }, [&] { return sign(s.compare(pos, 1, sx)); });
-            chk("null view: at", [&] { return (int)t.at(pos); }, [&] { return (int)s.at(pos); });
-            chk("null view: copy", [&] { std::string b(4, '#'); size_t r = t.copy(&b[0], 2, pos); return std::to_string(r) + ":" + b; },
+            chk("null-view:substr(pos)", [&] { return t.substr(pos).to_string(); }, [&] { return std::string(s.substr(pos)); });
+            chk("null-view:compare(pos,n,view)", [&] { return sign(t.compare(pos, 1, tx)); }, [&] { return sign(s.compare(pos, 1, sx)); });
+            chk("null-view:at", [&] { return (int)t.at(pos); }, [&] { return (int)s.at(pos); });
+            chk("null-view:copy", [&] { std::string b(4, '#'); size_t r = t.copy(&b[0], 2, pos); return std::to_string(r) + ":" + b; },
                 [&] { std::string b(4, '#'); size_t r = s.copy(&b[0], 2, pos); return std::to_string(r) + ":" + b; });
         }
         g_pos = 0;
-        chk("null view: find(view)", [&] { return t.find(tx); }, [&] { return s.find(sx); });
-        chk("null view: rfind(view)", [&] { return t.rfind(tx); }, [&] { return s.rfind(sx); });
-        chk("null view: find(null view)", [&] { return t.find(TV()); }, [&] { return s.find(SV()); });
-        chk("null view: rfind(null view)", [&] { return t.rfind(TV()); }, [&] { return s.rfind(SV()); });
-        if (std::hash<TV>()(t) != std::hash<TV>()(TV(xc, (size_t)0))) report("null view: hash", "differs from the hash of a non-null empty view", "equal");
+        chk("null-view:find(view)", [&] { return t.find(tx); }, [&] { return s.find(sx); });
+        chk("null-view:rfind(view)", [&] { return t.rfind(tx); }, [&] { return s.rfind(sx); });
+        chk("null-view:find(null view)", [&] { return t.find(TV()); }, [&] { return s.find(SV()); });
+        chk("null-view:rfind(null view)", [&] { return t.rfind(TV()); }, [&] { return s.rfind(SV()); });
+        if (std::hash<TV>()(t) != std::hash<TV>()(TV(xc, (size_t)0))) report("null-view:hash", "differs from the hash of a non-null empty view", "equal");
     }
     (void)rng;
     verif::count("null_view_rounds");
